@@ -87,3 +87,7 @@ PROOFS = [
     {'name': 'ContentLength_parse', 'enforce': 'Pistache_Http_Header_ContentLength_parse', 'props': ['C16']},
     {'name': 'ContentLength_write', 'enforce': 'Pistache_Http_Header_ContentLength_write', 'props': ['C16']},
 ]
+# quick native sweep (bounded, supporting): boundary values of the writer -> parser round trip on the real code.  It stands in where a rewrite of
+# parse() brings a loop of its own, for which the unit has no invariant (seed C16-I: the bounded search cannot reach 20 digits)
+NATIVE_SWEEPS = [{'name': 'content_length_boundaries', 'quick': True, 'driver': 'hdr_rt', 'props': ['C16'], 'what': 'Header::ContentLength write + parse + write',
+                  'argvs': [['contentlength', str(v)] for v in [0, 1, 9, 10, 99, 100, 999, 1000, 9999, 10000, 99999, 100000, 999999, 1000000, 9999999, 10000000, 99999999, 100000000, 999999999, 1000000000, 2147483647, 2147483648, 4294967295, 4294967296, 9999999999, 10000000000, 99999999999, 100000000000, 999999999999, 1000000000000, 9999999999999, 10000000000000, 99999999999999, 100000000000000, 999999999999999, 1000000000000000, 9999999999999999, 10000000000000000, 99999999999999999, 100000000000000000, 999999999999999999, 1000000000000000000, 1844674407370955160, 1844674407370955161, 1844674407370955162, 9223372036854775807, 9223372036854775808, 9223372036854775809, 9999999999999999999, 10000000000000000000, 18446744073709551608, 18446744073709551609, 18446744073709551610, 18446744073709551611, 18446744073709551612, 18446744073709551613, 18446744073709551614, 18446744073709551615]]}]
